@@ -147,6 +147,8 @@ func (o Op) Sym() string {
 		return fmt.Sprintf("%d readdir %s %d %d", o.Id, o.H, o.Cookie, o.Count)
 	case "readdirplus":
 		return fmt.Sprintf("%d readdirplus %s %d %d %d", o.Id, o.H, o.Cookie, o.Dircount, o.Maxcount)
+	case "enum":
+		return fmt.Sprintf("%d enum %s %d %d %d %d %d", o.Id, o.H, o.Mode, o.Count, o.Dircount, o.Maxcount, o.Stable)
 	}
 	// mknod link fsstat null restart crash unstable:<0|1> sync
 	return fmt.Sprintf("%d %s", o.Id, o.Proc)
@@ -222,6 +224,13 @@ func ParseOp(line string) (Op, error) {
 		o.Cookie = u(3)
 		o.Dircount = u(4)
 		o.Maxcount = u(5)
+	case "enum":
+		o.H = s(2)
+		o.Mode = uint32(u(3))
+		o.Count = u(4)
+		o.Dircount = u(5)
+		o.Maxcount = u(6)
+		o.Stable = uint32(u(7))
 	}
 	return o, nil
 }
